@@ -481,6 +481,8 @@ class Interp:
         self.child_side = {}
         self.sides = {}
         self.mat = {}
+        if self.opts.get("depth_bound"):
+            self.depth_bound = tuple(self.opts["depth_bound"])
 
     # ---- choices
     def choose(self, key, options):
